@@ -64,6 +64,24 @@ static inline void rt_park_until_quiescent(int (*hook)(void)) {
   fmc_fail("rt_park: main fiber resumed from a signal nobody raises");
 }
 
+// -Dperm=1: the order in which the harness creates its n fibers is an enumerated input (n! cases):
+// creation order decides who is popped first by the creating thread and who is stolen first, i.e.
+// which interleavings are cheap in pre-emptions
+static inline void rt_creation_order(int n, int* order) {
+  int fact = 1;
+  for (int i = 2; i <= n; i++) fact *= i;
+  int k = fmc_param("perm", 0) ? fmc_input(fact) : 0;
+  int pool[8];
+  for (int i = 0; i < n; i++) pool[i] = i;
+  for (int i = 0; i < n; i++) {
+    fact /= (n - i);
+    int j = k / fact;
+    k %= fact;
+    order[i] = pool[j];
+    for (int m = j; m < n - i - 1; m++) pool[m] = pool[m + 1];
+  }
+}
+
 // force the 1-in-1024 load-balance path on the next plain yield of this thread
 static inline void rt_force_balance(void) { fiber_manager_get()->yield_count = 1023; }
 
